@@ -13,13 +13,13 @@ structure Sane (A : ADB) : Prop where
   acct_lt : ∀ a ∈ A.accounts, a.seq < A.acctSeq
   acct_seq : A.accounts.Pairwise (fun a b => a.seq < b.seq)
   acct_key : A.accounts.Pairwise (fun a b => ¬ (a.ledger = b.ledger ∧ a.address = b.address))
-  am_lt : ∀ h ∈ A.acctMeta, h.acctSeq < A.acctSeq
+  am_lt : ∀ h ∈ A.acctMeta, h.base < A.acctSeq
   mv_lt : ∀ m ∈ A.moves, m.seq < A.movesSeq
   mv_seq : A.moves.Pairwise (fun a b => a.seq < b.seq)
   mv_acct : ∀ m ∈ A.moves, ∃ a ∈ A.accounts, a.seq = m.acctSeq ∧ a.ledger = m.ledger ∧ a.address = m.account
   tx_lt : ∀ t ∈ A.txs, t.seq < A.txSeq
   tx_seq : A.txs.Pairwise (fun a b => a.seq < b.seq)
-  tm_lt : ∀ h ∈ A.txMeta, h.txSeq < A.txSeq
+  tm_lt : ∀ h ∈ A.txMeta, h.base < A.txSeq
 
 theorem sane_empty : Sane {} := by
   constructor <;> simp
@@ -54,12 +54,12 @@ theorem pairwise_lt_inj {α} {f : α → Nat} {xs : List α} (h : xs.Pairwise (f
 
 theorem foldl_acctUpdHist_acctMeta (rows : List AAcct) (A : ADB) :
     ∃ hs : List AAcctMeta, (rows.foldl aAcctUpdHist A).acctMeta = A.acctMeta ++ hs ∧
-      (∀ h ∈ hs, ∃ r ∈ rows, h.acctSeq = r.seq ∧ h.ledger = r.ledger) := by
+      (∀ h ∈ hs, ∃ r ∈ rows, h.base = r.seq ∧ h.ledger = r.ledger) := by
   induction rows generalizing A with
   | nil => exact ⟨[], by simp, by simp⟩
   | cons r rs ih =>
     obtain ⟨hs, h1, h2⟩ := ih (aAcctUpdHist A r)
-    refine ⟨{ seq := A.acctMetaSeq, ledger := r.ledger, acctSeq := r.seq, md := r.md, revision := nextRevA A.acctMeta r.seq, date := r.upd } :: hs,
+    refine ⟨{ seq := A.acctMetaSeq, ledger := r.ledger, base := r.seq, md := r.md, revision := nextRevA A.acctMeta r.seq, date := r.upd } :: hs,
       by rw [List.foldl_cons, h1]; simp [aAcctUpdHist], ?_⟩
     intro h hh
     rcases List.mem_cons.mp hh with rfl | hh
@@ -69,7 +69,7 @@ theorem foldl_acctUpdHist_acctMeta (rows : List AAcct) (A : ADB) :
 
 theorem aUpdateAccounts_acctMeta (A : ADB) (p : AAcct → Bool) (u : AAcct → AAcct) (hu : ∀ r, (u r).seq = r.seq ∧ (u r).ledger = r.ledger) :
     ∃ hs : List AAcctMeta, (aUpdateAccounts A p u).acctMeta = A.acctMeta ++ hs ∧
-      (∀ h ∈ hs, ∃ r ∈ A.accounts, p r = true ∧ h.acctSeq = r.seq ∧ h.ledger = r.ledger) := by
+      (∀ h ∈ hs, ∃ r ∈ A.accounts, p r = true ∧ h.base = r.seq ∧ h.ledger = r.ledger) := by
   obtain ⟨hs, h1, h2⟩ := foldl_acctUpdHist_acctMeta ((A.accounts.filter p).map u) { A with accounts := A.accounts.map (fun r => if p r then u r else r) }
   refine ⟨hs, h1, ?_⟩
   intro h hh
@@ -374,12 +374,12 @@ theorem sane_frame_postings (ps : List Posting) (A : ADB) (txSeq : Val) (l : Str
 
 theorem foldl_txUpdHist_txMeta (rows : List ATx) (A : ADB) :
     ∃ hs : List ATxMeta, (rows.foldl aTxUpdHist A).txMeta = A.txMeta ++ hs ∧
-      (∀ h ∈ hs, ∃ r ∈ rows, h.txSeq = r.seq ∧ h.ledger = r.ledger) := by
+      (∀ h ∈ hs, ∃ r ∈ rows, h.base = r.seq ∧ h.ledger = r.ledger) := by
   induction rows generalizing A with
   | nil => exact ⟨[], by simp, by simp⟩
   | cons r rs ih =>
     obtain ⟨hs, h1, h2⟩ := ih (aTxUpdHist A r)
-    refine ⟨{ seq := A.txMetaSeq, ledger := r.ledger, txSeq := r.seq, revision := nextRevT A.txMeta r.seq, date := r.updatedAt, md := r.md } :: hs,
+    refine ⟨{ seq := A.txMetaSeq, ledger := r.ledger, base := r.seq, revision := nextRevT A.txMeta r.seq, date := r.updatedAt, md := r.md } :: hs,
       by rw [List.foldl_cons, h1]; simp [aTxUpdHist], ?_⟩
     intro h hh
     rcases List.mem_cons.mp hh with rfl | hh
@@ -389,7 +389,7 @@ theorem foldl_txUpdHist_txMeta (rows : List ATx) (A : ADB) :
 
 theorem aUpdateTxs_txMeta (A : ADB) (p : ATx → Bool) (u : ATx → ATx) (hu : ∀ r, (u r).seq = r.seq ∧ (u r).ledger = r.ledger) :
     ∃ hs : List ATxMeta, (aUpdateTxs A p u).txMeta = A.txMeta ++ hs ∧
-      (∀ h ∈ hs, ∃ r ∈ A.txs, p r = true ∧ h.txSeq = r.seq ∧ h.ledger = r.ledger) := by
+      (∀ h ∈ hs, ∃ r ∈ A.txs, p r = true ∧ h.base = r.seq ∧ h.ledger = r.ledger) := by
   obtain ⟨hs, h1, h2⟩ := foldl_txUpdHist_txMeta ((A.txs.filter p).map u) { A with txs := A.txs.map (fun r => if p r then u r else r) }
   refine ⟨hs, h1, ?_⟩
   intro h hh
@@ -561,8 +561,8 @@ theorem sane_steps (logs : List CLog) (A : ADB) (h : Sane A) : Sane (logs.foldl 
 -- ---------------------------------------------------------------- the same, about the generated projection
 
 theorem otherRows_conc (A : ADB) (l : String) :
-    otherRows (conc A) l = ((aOther A l).1.map ATx.row, (aOther A l).2.1.map ATxMeta.row, (aOther A l).2.2.1.map AAcct.row,
-      (aOther A l).2.2.2.1.map AAcctMeta.row, (aOther A l).2.2.2.2.map AMove.row) := by
+    otherRows (conc A) l = ((aOther A l).1.map ATx.row, (aOther A l).2.1.map AMeta.rowT, (aOther A l).2.2.1.map AAcct.row,
+      (aOther A l).2.2.2.1.map AMeta.rowA, (aOther A l).2.2.2.2.map AMove.row) := by
   simp only [otherRows, aOther, conc, List.filter_map]
   rfl
 
